@@ -313,3 +313,13 @@ def run(model, col, tier):
 
     memo.check_file(model, col, "R06.8", GEN)
     memo.check_file(model, col, "R06.8", WA)
+    # ---------------- R06.9 the signedness the generator reads is the source type's (= the scalar rows of the type adapter) ----
+    from . import c01
+    from ..report import Collector as _Col
+
+    sub = _Col("C01")
+    c01.run_R01_5(model, sub, VMModel(model))
+    for ob in sub.obligations:
+        if "_CreateLinearIRType" in ob.construct:
+            ob.rule = "R06.9"
+            col.obligations.append(ob)
